@@ -804,7 +804,7 @@ class LockCheck:
             spec = dict(spec, seed=chk.seed, kind=self.lock)
             gname = spec.pop("graph", None)
             spec["snap"] = True
-            spec.setdefault("max_secs", 7 if tier == "quick" else 45)
+            spec.setdefault("max_secs", 7 if tier == "quick" else 30)
             runs, info = self.explore(chk, bindir, spec, tag)
             explored.append({"tag": tag, "progs": spec["progs"], "preemption_bound": spec.get("preempt"), "runs": len(runs),
                              "mode": spec.get("mode") or ("random" if "runs" in spec else "dfs"),
@@ -829,13 +829,13 @@ class LockCheck:
         # 4b. algorithm level: every recorded execution (any programs, up to 4 threads) must be a behaviour
         #     of the algorithm-level specification (<Prefix>Trace.tla); what the model cannot follow is drift
         t0 = time.time()
-        # (the tour replays were already compared step by step by B1: the quick tier leaves them out here)
-        sel = [r for r in pending if tier != "quick" or not r["source"].startswith("B1 ")]
+        # (the tour replays were already compared step by step by B1 and are left out here)
+        sel = [r for r in pending if not r["source"].startswith("B1 ")]
         conf_bad, more = conform_tlc(chk, self.prefix, sel)
         nbad = len(conf_bad) + more
         chk.extra["algorithm_level_trace_validation"] = {"executions": len(sel), "accepted": len(sel) - nbad,
                                                          "not_followed_by_model": nbad,
-                                                         "scope": "explored executions (DFS, coverage-guided, random)" if tier == "quick" else "all recorded executions"}
+                                                         "scope": "explored executions (DFS, coverage-guided, random); tour replays are compared step by step by B1"}
         core.log("%sTrace: %d of %d executions are behaviours of %s.tla (%.1fs)" % (
             self.prefix, len(sel) - nbad, len(sel), self.prefix, time.time() - t0))
         for ri, where in sorted(conf_bad.items())[:3]:
